@@ -12,9 +12,11 @@ namespace C20
 open Stack
 
 /-- The layer has no reason to intervene on this request/handler: its limit is not reached, the breaker is in standby,
-the pool is non-empty, the request and the handler's body are within the buffer's maxima. -/
+the pool is non-empty, the request and the handler's body are within the buffer's maxima, and a buffer configured to retry on
+network errors is not looking at a 502/504 (then the documented retry applies: `C20_retry_documented`). -/
 def passes (l : LayerCfg) (req : Req) (s : Script) : Prop :=
   intervenes l req = false ∧ overflows l (scriptResp s).body.length = false
+  ∧ (retryBuf l && netErr (scriptResp s).status) = false
 
 instance (l : LayerCfg) (req : Req) (s : Script) : Decidable (passes l req s) := by
   unfold passes; infer_instance
@@ -55,7 +57,7 @@ theorem C20_transparent (stack : List LayerCfg) (h : Req → Script) (req : Req)
     ∧ (¬ hasBuffer stack → (serveStack stack h req).flushed = (flushRequested (h req) && !(h req).hijack))
     ∧ (¬ hasBuffer stack → (serveStack stack h req).infos = (if (h req).hijack then [] else (h req).info)) := by
   have hi : ∀ l ∈ stack, intervenes l req = false := fun l hl => (hp l hl).1
-  have hs : serveStack stack h req = stack.foldr post (runHandler (h req) (capsThrough stack Caps.real)) := by
+  have hs : serveStack stack h req = stack.foldr step (runHandler (h req) (capsThrough stack Caps.real)) := by
     have := serve_append stack [] h req Caps.real hi
     simpa [serveStack, serve] using this
   have hH : (capsThrough stack Caps.real).canHijack = true := by
@@ -82,8 +84,10 @@ theorem C20_transparent (stack : List LayerCfg) (h : Req → Script) (req : Req)
       · exact Or.inr (Or.inr h1)
       · exact Or.inr (Or.inl h1)
       · exact Or.inl h1
-    rw [hs, hr, foldr_post_plain _ _ rfl (fun l hl => (hp l hl).2) hd]
-    refine ⟨rfl, by simp [hj'], by simp [hj'], ⟨_, rfl, hH, ?_⟩, ?_, ?_⟩
+    have hone : attemptsThrough stack (scriptResp (h req)).status = 1 :=
+      attemptsThrough_one _ _ (fun l hl => (hp l hl).2.2)
+    rw [hs, hr, foldr_post_plain _ _ rfl (fun l hl => (hp l hl).2.1) hd]
+    refine ⟨by simp [hone], by simp [hj'], by simp [hj'], ⟨_, rfl, hH, ?_⟩, ?_, ?_⟩
     · by_cases hb : hasBuffer stack
       · exact Or.inr hb
       · exact Or.inl (hF hb)
@@ -167,17 +171,22 @@ theorem C20_response_limit (outer inner : List LayerCfg) (B : LayerCfg) (h : Req
     rcases hdom with h1 | h1
     · exact Or.inr (Or.inl h1)
     · exact Or.inl h1
-  rw [hr, foldr_post_plain _ _ rfl (fun l hl => (hin l hl).2) hd] at hinner
+  have hone : attemptsThrough inner (scriptResp (h req)).status = 1 :=
+    attemptsThrough_one _ _ (fun l hl => (hin l hl).2.2)
+  rw [hr, foldr_post_plain _ _ rfl (fun l hl => (hin l hl).2.1) hd] at hinner
+  simp only [hone, Nat.mul_one] at hinner
   have hB' : serve (B :: inner) h req (capsThrough outer Caps.real)
-      = post B (serve inner h req (capsThrough (outer ++ [B]) Caps.real)) := by
-    simp [serve, hB, capsThrough, List.foldl_append]
+      = step B (serve inner h req (capsThrough (outer ++ [B]) Caps.real)) := by
+    simp [serve, hB, capsThrough, List.foldl_append, step]
   unfold serveStack
   rw [serve_append outer (B :: inner) h req Caps.real (fun l hl => (hout l hl).1), hB', hinner]
-  have hpost : ∀ c f i e, post B ⟨decorate inner (scriptResp (h req)), 1, some c, false, f, i, e⟩
+  have hpost : ∀ c f i e, step B ⟨decorate inner (scriptResp (h req)), 1, some c, false, f, i, e⟩
       = ⟨internalError, 1, some c, false, f, [], true⟩ := by
-    intro c f i e; simp [post, decorate_body, hov]
+    intro c f i e; simp [step, retryMul, retryable, post, decorate_body, hov]
+  have hout1 : attemptsThrough outer internalError.status = 1 :=
+    attemptsThrough_one _ _ (fun l _ => by simp [internalError, netErr])
   rw [hpost, foldr_post_plain _ _ rfl (fun l hl => (hout l hl).2) (Or.inl rfl)]
-  exact ⟨rfl, rfl⟩
+  exact ⟨by simp [hout1], rfl⟩
 
 /-- **A failed hijack stays a failed hijack.**  Behind a front whose writer cannot be hijacked (a recorder,
 `http.TimeoutHandler`, HTTP/2) the handler's attempt fails in every passing stack, and the ordinary response it then writes is
@@ -188,7 +197,7 @@ theorem C20_failed_hijack_relayed (front : Caps) (hf : front.canHijack = false)
     (serve stack h req front).invoked = 1 ∧ (serve stack h req front).hijacked = false
     ∧ (serve stack h req front).resp = decorate stack (scriptResp (h req)) := by
   have hi : ∀ l ∈ stack, intervenes l req = false := fun l hl => (hp l hl).1
-  have hs : serve stack h req front = stack.foldr post (runHandler (h req) (capsThrough stack front)) := by
+  have hs : serve stack h req front = stack.foldr step (runHandler (h req) (capsThrough stack front)) := by
     have := serve_append stack [] h req front hi
     simpa [serve] using this
   have hH : (capsThrough stack front).canHijack = false := by rw [capsThrough_canHijack]; exact hf
@@ -201,8 +210,10 @@ theorem C20_failed_hijack_relayed (front : Caps) (hf : front.canHijack = false)
     · exact Or.inr (Or.inr h1)
     · exact Or.inr (Or.inl h1)
     · exact Or.inl h1
-  rw [hs, hr, foldr_post_plain _ _ rfl (fun l hl => (hp l hl).2) hd]
-  exact ⟨rfl, rfl, rfl⟩
+  have hone : attemptsThrough stack (scriptResp (h req)).status = 1 :=
+    attemptsThrough_one _ _ (fun l hl => (hp l hl).2.2)
+  rw [hs, hr, foldr_post_plain _ _ rfl (fun l hl => (hp l hl).2.1) hd]
+  exact ⟨by simp [hone], rfl, rfl⟩
 
 /-- **Known gap in the code (1xx + implicit final status behind a buffer).**  `infoDomain` cannot be dropped from
 `C20_transparent`: a handler that calls `WriteHeader(103)` and then writes its body without a final `WriteHeader` loses its
@@ -218,27 +229,53 @@ connection limiter, tokens left per rate limiter) in which every layer passes: a
 exactly as the stateless stack in the state *before* the aborted request serves it (every connection slot is back; a rate
 limiter that had at least two tokens still passes).  With `C20_transparent` on `effStack sl` this is full transparency of the
 later request. -/
-theorem C20_abort_restores (sl : List SLayer) (h : Req → Script) (req req2 : Req)
-    (hp : ∀ l ∈ effStack sl, intervenes l req = false)
-    (hb : ∀ p ∈ sl, p.1.kind = Kind.ratelimit → 2 ≤ p.2) :
-    (serveSt sl h req true Caps.real).1 = Outcome.aborted 1
-    ∧ (serveSt (serveSt sl h req true Caps.real).2 h req2 false Caps.real).1
-        = Outcome.served (serveStack (effStack sl) h req2) := by
-  rw [serveSt_aborted sl h req Caps.real hp]
+theorem C20_abort_restores (stack : List LayerCfg) (st : List Nat) (h : Req → Script) (req req2 : Req)
+    (hp : ∀ l ∈ effStack stack st, intervenes l req = false)
+    (hb : ample stack st) (hnr : ∀ l ∈ stack, retryBuf l = false) :
+    (serveSt stack st h req true Caps.real).1 = Outcome.aborted 1
+    ∧ (serveSt stack (serveSt stack st h req true Caps.real).2 h req2 false Caps.real).1
+        = Outcome.served (serveStack (effStack stack st) h req2) := by
+  rw [serveSt_aborted stack st h req Caps.real hp]
   refine ⟨rfl, ?_⟩
-  rw [serveSt_served, effStack_after sl hb]
+  rw [serveSt_served _ _ _ _ _ hnr, effStack_after stack st hb]
   rfl
 
 /-- the connection slots really are what is at stake: the state after the aborted request is the state before it,
-except for the rate tokens spent -/
-theorem C20_abort_state (sl : List SLayer) (h : Req → Script) (req : Req)
-    (hp : ∀ l ∈ effStack sl, intervenes l req = false) :
-    (serveSt sl h req true Caps.real).2 = sl.map (fun p => (p.1, if p.1.kind = Kind.ratelimit then p.2 - 1 else p.2)) := by
-  rw [serveSt_aborted sl h req Caps.real hp]
-  apply List.map_congr_left
-  intro p _
-  obtain ⟨l, n⟩ := p
-  cases hk : l.kind <;> simp [after, enter, leave, hk]
+except for the rate tokens spent (`stateAfter`: `leave (enter n)` per layer, i.e. `n+1-1` for a connection limiter) -/
+theorem C20_abort_state (stack : List LayerCfg) (st : List Nat) (h : Req → Script) (req : Req)
+    (hp : ∀ l ∈ effStack stack st, intervenes l req = false) :
+    (serveSt stack st h req true Caps.real).2 = stateAfter stack st
+    ∧ ∀ (l : LayerCfg) (n : Nat), leave l.kind (enter l.kind n) = if l.kind = Kind.ratelimit then n - 1 else n := by
+  rw [serveSt_aborted stack st h req Caps.real hp]
+  refine ⟨rfl, ?_⟩
+  intro l n
+  cases hk : l.kind <;> simp [enter, leave]
+
+/-- **The documented retry, and nothing beyond it.**  A handler that answers 502 or 504 behind buffers configured with
+`Retry("IsNetworkError() && Attempts() <= 2")`: each such buffer runs its inner stack three times (attempts 1 and 2 are retried,
+the third is relayed), so the handler runs `3 ^ (number of retrying buffers)` times, and the response of the last attempt is
+relayed unchanged.  Every other status — 503 included — falls under `C20_transparent`: exactly one invocation. -/
+theorem C20_retry_documented (stack : List LayerCfg) (h : Req → Script) (req : Req)
+    (hp : ∀ l ∈ stack, intervenes l req = false ∧ overflows l (scriptResp (h req)).body.length = false)
+    (hdom : infoDomain stack (h req)) (hj : (h req).hijack = false)
+    (hst : netErr (scriptResp (h req)).status = true) :
+    (serveStack stack h req).invoked = 3 ^ stack.countP retryBuf
+    ∧ (serveStack stack h req).resp = decorate stack (scriptResp (h req)) := by
+  have hi : ∀ l ∈ stack, intervenes l req = false := fun l hl => (hp l hl).1
+  have hs : serveStack stack h req = stack.foldr step (runHandler (h req) (capsThrough stack Caps.real)) := by
+    have := serve_append stack [] h req Caps.real hi
+    simpa [serveStack, serve] using this
+  have hr : runHandler (h req) (capsThrough stack Caps.real)
+      = ⟨scriptResp (h req), 1, some (capsThrough stack Caps.real), false,
+          flushRequested (h req) && (capsThrough stack Caps.real).canFlush, (h req).info, (h req).status.isSome⟩ := by
+    simp [runHandler, hj]
+  have hd : (h req).status.isSome = true ∨ (h req).info = [] ∨ ¬ hasBuffer stack := by
+    rcases hdom with h1 | h1 | h1
+    · exact Or.inr (Or.inr h1)
+    · exact Or.inr (Or.inl h1)
+    · exact Or.inl h1
+  rw [hs, hr, foldr_post_plain _ _ rfl (fun l hl => (hp l hl).2) hd]
+  exact ⟨by simp [attemptsThrough_pow _ _ hst], rfl⟩
 
 /-! ## Non-vacuity: depth-4 stacks -/
 
@@ -275,13 +312,25 @@ example : (serveStack [{ kind := .stream }, { kind := .buffer, maxResp := 4 }, {
     ∧ (serveStack [{ kind := .stream }, { kind := .buffer, maxResp := 4 }, { kind := .trace }, { kind := .connlimit }] h1 ⟨0⟩).invoked = 1 := by decide
 
 /-- `C20_abort_restores`: connection limiter of 1 with nothing in flight, rate limiter with 2 tokens, behind a buffer and a breaker -/
-private def slA : List SLayer :=
-  [({ kind := .buffer, maxReq := 16 }, 0), ({ kind := .connlimit, limit := 1 }, 0), ({ kind := .cbreaker }, 0), ({ kind := .ratelimit }, 2)]
-example : (∀ l ∈ effStack slA, intervenes l ⟨3⟩ = false) ∧ (∀ p ∈ slA, p.1.kind = Kind.ratelimit → 2 ≤ p.2) := by decide
-example : (serveSt slA h1 ⟨3⟩ true Caps.real).1 = Outcome.aborted 1
-    ∧ (serveSt slA h1 ⟨3⟩ true Caps.real).2.map (·.2) = [0, 0, 0, 1] := by decide
+private def stA : List LayerCfg :=
+  [{ kind := .buffer, maxReq := 16 }, { kind := .connlimit, limit := 1 }, { kind := .cbreaker }, { kind := .ratelimit }]
+example : (∀ l ∈ effStack stA [0, 0, 0, 2], intervenes l ⟨3⟩ = false) ∧ ample stA [0, 0, 0, 2]
+    ∧ (∀ l ∈ stA, retryBuf l = false) := by
+  refine ⟨by decide, ?_, by decide⟩
+  simp [ample, stA, hd0]
+example : (serveSt stA [0, 0, 0, 2] h1 ⟨3⟩ true Caps.real).1 = Outcome.aborted 1
+    ∧ (serveSt stA [0, 0, 0, 2] h1 ⟨3⟩ true Caps.real).2 = [0, 0, 0, 1] := by decide
 /-- … and the hypotheses matter: with the slot still taken (state 1 of limit 1) the same stack refuses -/
-example : (serveSt [({ kind := .connlimit, limit := 1 }, 1)] h1 ⟨0⟩ false Caps.real).1
+example : (serveSt [{ kind := .connlimit, limit := 1 }] [1] h1 ⟨0⟩ false Caps.real).1
     = Outcome.served ⟨interventionResp { kind := .connlimit, limit := 1, tripped := true }, 0, none, false, false, [], true⟩ := by decide
+/-- `C20_retry_documented`: 504 behind one retrying buffer in a depth-4 stack: three runs; 503: one run; the stateful loop agrees -/
+private def h504 : Req → Script := fun _ => ⟨some 504, [("Content-Type", "text/verif")], [[1]], 0, false, [], false⟩
+private def h503 : Req → Script := fun _ => ⟨some 503, [("Content-Type", "text/verif")], [[1]], 0, false, [], false⟩
+private def sRetry : List LayerCfg :=
+  [{ kind := .trace }, { kind := .buffer, retry := true }, { kind := .ratelimit }, { kind := .rebalancer }]
+example : (serveStack sRetry h504 ⟨0⟩).invoked = 3 ∧ (serveStack sRetry h504 ⟨0⟩).resp.status = 504
+    ∧ (serveStack sRetry h503 ⟨0⟩).invoked = 1 ∧ (∀ l ∈ sRetry, passes l ⟨0⟩ (h503 ⟨0⟩)) := by decide
+example : (serveSt sRetry [0, 0, 9, 0] h504 ⟨0⟩ false Caps.real).1 = Outcome.served (serveStack sRetry h504 ⟨0⟩)
+    ∧ (serveSt sRetry [0, 0, 9, 0] h504 ⟨0⟩ false Caps.real).2 = [0, 0, 6, 0] := by decide
 
 end C20
